@@ -108,6 +108,10 @@ def run(tier, seed, replay=None):
                 q2a = path_text(p[0], p[1], base + ('H = X',))
                 q2b = path_text(p[0], p[1], base + ('G = GB',))
                 pieces = [q2a, q2b] if rng.random() < 0.5 else [q2b, q2a]
+                if rng.random() < 0.5:
+                    # another key written between the two spellings
+                    other = [i for i in IDENTS if i != p[1]][0]
+                    pieces = [pieces[0], '%s%s<G = GC>' % (p[0], other), pieces[1]]
                 b2 = 'impl<U> K for %s where %s {}' % (hdr, (', '.join('%s: %s' % (hdr, q) for q in pieces)) if rng.random() < 0.5 else '%s: %s' % (hdr, ' + '.join(pieces)))
             else:
                 b2 = 'impl<U> K for %s where %s: %s {}' % (hdr, hdr, q2)
@@ -121,6 +125,14 @@ def run(tier, seed, replay=None):
     stats = dict(unsupported=0, crash=0, eq_true=0, eq_false=0, tok_skipped=0, tok_checked=0, pairs=0, in_situ=0)
     mreq, midx = [], []
     situ_viol = []
+    # the grouping of the in-situ invocations against the Coq model of the family search (which reads the
+    # bounds of a block independently: one row per written bound, bindings attached to their own bound)
+    situ_idx = [i for i, r in enumerate(resp) if reqs[i].startswith('groups\t') and r.startswith('(Blocks')]
+    situ_model = cm.run_model(['search\t' + resp[i].split('\t')[0] for i in situ_idx], exe_model) if situ_idx else []
+    for i, m in zip(situ_idx, situ_model):
+        if m != resp[i].split('\t')[1]:
+            situ_viol.append(dict(kind='correspondence', request=reqs[i], impl=resp[i].split('\t')[1][:3000], model=m[:3000],
+                                  oracle='corr:hook/search: keys, rows or members of an in-situ invocation differ from the Coq model of the family search'))
     for i, r in enumerate(resp):
         if reqs[i].startswith('groups\t'):
             stats['in_situ'] += 1
